@@ -192,7 +192,8 @@ def check(repo, rep):
             continue
         v = l.value
         d = v[2][0] if v[0] == 'call' and v[2] else None
-        ok = d is not None and P.prod(P.const(b'\x00'), P.call('round', P.prod(P.param('duration'), P.role('sampling_rate'))), P.role('sample_width'), P.role('channels'))(d)
+        nzero = P.prod(P.call('round', P.prod(P.param('duration'), P.role('sampling_rate'))), P.role('sample_width'), P.role('channels'))
+        ok = d is not None and (P.prod(P.const(b'\x00'), nzero)(d) or P.call('bytes', nzero)(d) or P.call('bytearray', nzero)(d))
         rep.ob('make_silence(d) holds round(d * rate) all-zero samples (x width x channels zero bytes)', ok, W(l.node), 'make_silence:data', 'data is %s' % (show(d)[:140] if d else None), sample=dict(op='make_silence', data=show(d)[:120] if d else None))
     # ---------------------------------------------------------------- division
     dl = cx.leaves('core', 'AudioRegion.__truediv__')
